@@ -1193,8 +1193,13 @@ func c11TextHelpers(c *Ctx) {
 	info := pk.TypesInfo
 	// f
 	if fi := c.P.Func("vaxis.Characters"); fi != nil {
-		clusterVars := map[types.Object]bool{}
-		widthVars := map[types.Object]bool{}
+		// places (variables, or fields of local structs: ch.Grapheme, sc.rest) that receive the cluster / the width /
+		// the StepString boundaries result of a uniseg segmenter call
+		clusterVars := map[string]bool{}
+		widthVars := map[string]bool{}
+		boundVars := map[string]bool{}
+		place := func(e ast.Expr) string { return c11fPlace(info, e) }
+		nChars := 0 // Characters judged
 		ast.Inspect(fi.Decl.Body, func(n ast.Node) bool {
 			as, ok := n.(*ast.AssignStmt)
 			if !ok || len(as.Rhs) != 1 {
@@ -1209,22 +1214,80 @@ func c11TextHelpers(c *Ctx) {
 				return true
 			}
 			if (fn.Name() == "FirstGraphemeClusterInString" || fn.Name() == "StepString") && len(as.Lhs) == 4 {
-				if id, ok := as.Lhs[0].(*ast.Ident); ok {
-					clusterVars[info.ObjectOf(id)] = true
+				if k := place(as.Lhs[0]); k != "" {
+					clusterVars[k] = true
+					if sel, ok := unparen(as.Lhs[0]).(*ast.SelectorExpr); ok && sel.Sel.Name == "Grapheme" && c11IsCharacter(info.TypeOf(sel.X)) {
+						// the segmenter stores its cluster in a Character directly
+						nChars++
+						c.ok("C11.f", fmt.Sprintf("vaxis.Characters/Character{%s,...} built from a uniseg cluster", types.ExprString(as.Lhs[0])), as.Pos(), "the cluster result of %s is stored in the Character", fn.Name())
+						if wsel, ok := unparen(as.Lhs[2]).(*ast.SelectorExpr); ok && wsel.Sel.Name == "Width" && c11IsCharacter(info.TypeOf(wsel.X)) {
+							c.check(fn.Name() == "FirstGraphemeClusterInString" && place(wsel.X) == place(sel.X), "C11.f", fmt.Sprintf("vaxis.Characters/width stored in %s is the cluster's width", types.ExprString(as.Lhs[2])), as.Pos(),
+								"width is the one uniseg returned for this cluster", "the width stored with the cluster is not the width uniseg computed for it")
+						}
+					}
 				}
-				if id, ok := as.Lhs[2].(*ast.Ident); ok && fn.Name() == "FirstGraphemeClusterInString" {
-					widthVars[info.ObjectOf(id)] = true
+				if k := place(as.Lhs[2]); k != "" {
+					if fn.Name() == "FirstGraphemeClusterInString" {
+						widthVars[k] = true
+					} else {
+						boundVars[k] = true
+					}
 				}
 			}
 			return true
 		})
-		n := 0
+		isUniseg := func(e ast.Expr, names ...string) *ast.CallExpr {
+			cl, ok := unparen(e).(*ast.CallExpr)
+			if !ok {
+				return nil
+			}
+			fn := calleeOf(info, cl)
+			if fn == nil || fn.Pkg() == nil || fn.Pkg().Path() != "github.com/rivo/uniseg" {
+				return nil
+			}
+			full := strings.TrimPrefix(fullName(fn), "github.com/rivo/uniseg.")
+			for _, n := range names {
+				if n == full {
+					return cl
+				}
+			}
+			return nil
+		}
+		// a cluster: a place a segmenter call stored its cluster in, or the current cluster of a uniseg iterator
+		isCluster := func(e ast.Expr) bool {
+			if k := place(e); k != "" && clusterVars[k] {
+				return true
+			}
+			return isUniseg(e, "Graphemes.Str") != nil
+		}
+		// the cluster's width: the width result, the width bits of StepString's boundaries, the iterator's width, or
+		// uniseg's width of a cluster
+		isWidth := func(e ast.Expr) bool {
+			e = unparen(e)
+			if k := place(e); k != "" && widthVars[k] {
+				return true
+			}
+			if be, ok := e.(*ast.BinaryExpr); ok && be.Op == token.SHR {
+				if k := place(be.X); k != "" && boundVars[k] {
+					if v, isC := constInt(info, be.Y); isC && v == 4 { // uniseg.ShiftWidth
+						return true
+					}
+				}
+			}
+			if isUniseg(e, "Graphemes.Width") != nil {
+				return true
+			}
+			if cl := isUniseg(e, "StringWidth"); cl != nil && len(cl.Args) == 1 && isCluster(cl.Args[0]) {
+				return true
+			}
+			return false
+		}
 		ast.Inspect(fi.Decl.Body, func(x ast.Node) bool {
 			cl, ok := x.(*ast.CompositeLit)
 			if !ok || typeName(info.TypeOf(cl)) != modPath+".Character" {
 				return true
 			}
-			n++
+			nChars++
 			var gExpr, wExpr ast.Expr
 			for i, el := range cl.Elts {
 				if kv, ok := el.(*ast.KeyValueExpr); ok {
@@ -1242,24 +1305,52 @@ func c11TextHelpers(c *Ctx) {
 			}
 			key := fmt.Sprintf("vaxis.Characters/Character{%s,...} built from a uniseg cluster", exprOrNil(gExpr))
 			okG := false
-			if gExpr != nil {
-				if _, isConst := constString(info, gExpr); isConst {
-					okG = true
-				} else if id, ok := unparen(gExpr).(*ast.Ident); ok && clusterVars[info.ObjectOf(id)] {
-					okG = true
-				}
+			if gExpr == nil {
+				// no grapheme in the literal: the zero value (a Character whose fields are stored afterwards is
+				// judged where the fields are written: they are places like any variable)
+				okG = true
+			} else if _, isConst := constString(info, gExpr); isConst {
+				okG = true
+			} else if isCluster(gExpr) {
+				okG = true
 			}
 			c.check(okG, "C11.f", key, cl.Pos(), "grapheme is the cluster returned by uniseg (or a constant)", "a Character is built from "+exprOrNil(gExpr)+", not from a cluster boundary computed by uniseg: a grapheme cluster can be split across cells")
 			if wExpr != nil && okG {
 				if _, isConst := constInt(info, wExpr); !isConst {
-					id, ok := unparen(wExpr).(*ast.Ident)
-					c.check(ok && widthVars[info.ObjectOf(id)], "C11.f", fmt.Sprintf("vaxis.Characters/width of %s is the cluster's width", exprOrNil(gExpr)), cl.Pos(),
+					c.check(isWidth(wExpr), "C11.f", fmt.Sprintf("vaxis.Characters/width of %s is the cluster's width", exprOrNil(gExpr)), cl.Pos(),
 						"width is the one uniseg returned for this cluster", "the width stored with the cluster is not the width uniseg computed for it")
 				}
 			}
 			return true
 		})
-		if n == 0 {
+		// fields of a Character written one by one (ch.Grapheme = ..., ch.Width = ...) outside a segmenter call
+		ast.Inspect(fi.Decl.Body, func(x ast.Node) bool {
+			as, ok := x.(*ast.AssignStmt)
+			if !ok || len(as.Lhs) != len(as.Rhs) {
+				return true
+			}
+			for i, l := range as.Lhs {
+				sel, ok := unparen(l).(*ast.SelectorExpr)
+				if !ok || !c11IsCharacter(info.TypeOf(sel.X)) {
+					continue
+				}
+				r := as.Rhs[i]
+				switch sel.Sel.Name {
+				case "Grapheme":
+					nChars++
+					_, isConst := constString(info, r)
+					c.check(isConst || isCluster(r), "C11.f", fmt.Sprintf("vaxis.Characters/Character{%s,...} built from a uniseg cluster", exprOrNil(r)), as.Pos(),
+						"grapheme is the cluster returned by uniseg (or a constant)", "a Character is built from "+exprOrNil(r)+", not from a cluster boundary computed by uniseg: a grapheme cluster can be split across cells")
+				case "Width":
+					if _, isConst := constInt(info, r); !isConst {
+						c.check(isWidth(r), "C11.f", fmt.Sprintf("vaxis.Characters/width stored in %s is the cluster's width", exprOrNil(l)), as.Pos(),
+							"width is the one uniseg returned for this cluster", "the width stored with the cluster is not the width uniseg computed for it")
+					}
+				}
+			}
+			return true
+		})
+		if nChars == 0 {
 			c.undecided("C11.f", "vaxis.Characters", fi.Decl.Pos(), "no Character literal found")
 		}
 	} else {
@@ -1267,6 +1358,27 @@ func c11TextHelpers(c *Ctx) {
 	}
 	// g, h (and k): symbolic evaluation of one generic iteration of the text loops (c11text.go)
 	c11TextCursorRules(c)
+}
+
+// c11fPlace: a stable name for a variable or a field path rooted at a variable (ch.Grapheme, sc.rest); "" otherwise.
+func c11fPlace(info *types.Info, e ast.Expr) string {
+	switch x := unparen(e).(type) {
+	case *ast.Ident:
+		if o := info.ObjectOf(x); o != nil {
+			if _, isVar := o.(*types.Var); isVar {
+				return fmt.Sprintf("%p", o)
+			}
+		}
+	case *ast.SelectorExpr:
+		if s, ok := info.Selections[x]; ok && s.Kind() == types.FieldVal {
+			if r := c11fPlace(info, x.X); r != "" {
+				return r + "." + x.Sel.Name
+			}
+		}
+	case *ast.StarExpr:
+		return c11fPlace(info, x.X)
+	}
+	return ""
 }
 
 func exprOrNil(e ast.Expr) string {
